@@ -48,6 +48,21 @@ def step (toks : List String) : Option (String × String) :=
       let ks := specKeys old ch
       let s := showSet ks
       some (s, s)
+  | "outcome" :: rest => do
+      -- specification: the update may be skipped only when the old index is clean (no empty
+      -- entry, no duplicate) and the changes leave its key set as it is; otherwise the new
+      -- index lists exactly the folded key set, each key once
+      let old ← parseOld (← kv rest "old")
+      let ch ← parseChanges (← kv rest "changes")
+      let oldKeys := old.map (·.key)
+      let clean := !oldKeys.contains 0 && oldKeys.eraseDups.length == oldKeys.length
+      let ks := specKeys old ch
+      let same := ks.length == oldKeys.length && oldKeys.all ks.contains
+      let sp := if clean && same then "none" else "keys=" ++ showSet ks
+      let m := match applyReferrerChanges old ch with
+        | none => "none"
+        | some l => "keys=" ++ showSet (l.map (·.key))
+      some (m, sp)
   | "stress" :: _ => some ("ok", "ok")
   | "capability" :: _ => some ("stable", "stable")
   | _ => none
